@@ -234,6 +234,14 @@ template <class E> struct Driver {
       std::string st = "STATES";
       for (uint64_t s : states) { st += ' '; st += js::hex(s); }
       printf("%s\n", st.c_str());
+      {  // every thread of the code under test must have been a simulated task
+        FILE *f = fopen("/proc/self/status", "r");
+        char line[256];
+        long threads = 1;
+        while (f && fgets(line, sizeof line, f)) if (strncmp(line, "Threads:", 8) == 0) threads = atol(line + 8);
+        if (f) fclose(f);
+        if (threads != 1) harness_error("%ld OS threads exist at the end of the batch: the code under test created threads outside the simulated pthread API", threads);
+      }
       printf("DONE %ld %.3f\n", to - from, wall_now() - t0);
       return 0;
     }
